@@ -731,6 +731,25 @@ func TestVerifC14ResumptionDirected(t *testing.T) {
 				s.cert.NotBefore, s.cert.NotAfter = vf14Validity(s.cert.TimeKind)
 				vf14Run(st, t, vf14Case{Ident: id, Version: ver, ECH: "none", Cert: s.cert, K1: s.k1, Second: true, K2: s.k2, Seed: uint64(n), NameKind: "dns"})
 			}
+			// the same with a ServerName that is not sent as SNI (IP literal): the verification name is still ServerName
+			for _, ip := range []string{"192.0.2.77", "2001:db8::77"} {
+				ipOnly := vf14Cert{Names: []string{ip}, Trusted: true, TimeKind: "valid"}
+				altOnly := vf14Cert{Names: []string{alt}, Trusted: true, TimeKind: "valid"}
+				ipAlt := vf14Cert{Names: []string{ip, alt}, Trusted: true, TimeKind: "valid"}
+				for _, s := range []step{
+					{ipOnly, vf14Knobs{ServerName: ip}, vf14Knobs{ServerName: ip}},
+					{altOnly, vf14Knobs{ServerName: ip, ISNTV: alt}, vf14Knobs{ServerName: ip}},
+					{altOnly, vf14Knobs{ServerName: ip, ISNTV: "*"}, vf14Knobs{ServerName: ip}},
+					{altOnly, vf14Knobs{ServerName: ip, SkipVerify: true}, vf14Knobs{ServerName: ip}},
+					{ipAlt, vf14Knobs{ServerName: ip, ISNTV: alt}, vf14Knobs{ServerName: ip}},
+					{ipAlt, vf14Knobs{ServerName: ip}, vf14Knobs{ServerName: ip, ISNTV: other}},
+					{ipOnly, vf14Knobs{ServerName: ip}, vf14Knobs{ServerName: ip, ISNTV: "*"}},
+				} {
+					n++
+					s.cert.NotBefore, s.cert.NotAfter = vf14Validity(s.cert.TimeKind)
+					vf14Run(st, t, vf14Case{Ident: id, Version: ver, ECH: "none", Cert: s.cert, K1: s.k1, Second: true, K2: s.k2, Seed: uint64(n), NameKind: "ip"})
+				}
+			}
 		}
 	}
 }
